@@ -433,6 +433,13 @@ def build_harness(member, bin=None, timeout=3600):
     _built.add(key)
 
 
+def coverage_env(e, component):
+    """developer aid: direct the profile of an instrumented harness binary (VERIF_COVERAGE) to the profile directory"""
+    if COVERAGE:
+        e["LLVM_PROFILE_FILE"] = os.path.join(os.environ.get("VERIF_COVERAGE_PROF", os.path.join(COVERAGE, "prof")), component + "-%p-%8m.profraw")
+    return e
+
+
 def harness_bin(component):
     return os.path.join(HARNESS, "target", "debug", component)
 
